@@ -146,7 +146,7 @@ def generate_and_run(profile, seed, index, tier):
     rnd = random.Random(seed)
     header = profile.gen_header(rnd, tier)
     header["tier"] = tier
-    n = profile.nsteps(rnd, tier)
+    n = profile.nsteps_for(header, rnd, tier) if hasattr(profile, "nsteps_for") else profile.nsteps(rnd, tier)
     return _run(profile, header, None, rnd, n, tier)
 
 
